@@ -3,7 +3,8 @@
    to molli/storage/ukvfile.py by the differential correspondence of harness/c02.py on every run. *)
 From Coq Require Import NArith List Bool.
 Import ListNotations.
-From Molli Require Import Model.UKV Proofs.UKVBase Proofs.UKV Proofs.UKVCrash Model.Backend Proofs.Backend.
+From Molli Require Import Model.UKV Proofs.UKVBase Proofs.UKV Proofs.UKVCrash Model.Backend Proofs.Backend
+  Model.UKVViews Proofs.UKVViews.
 Open Scope N_scope.
 
 (* One operation.  In any state satisfying the invariant (file = header ++ encoded records, distinct
@@ -115,3 +116,58 @@ Proof.
   cbv -[lt]. repeat split; try (repeat constructor; fail); intros; try discriminate;
   repeat (match goal with j : nat |- _ => destruct j as [|j] end; try reflexivity; try congruence).
 Qed.
+
+(* ---- derived views: items(), values(), membership, length, pickled handle copies ----
+   (h[k], h[k] = v, `with h:` are other spellings of get / put / open-close and are driven through the same model ops) *)
+(* One step of the extended operation set (base operations, items(), values(), a pickled copy of a closed handle into a
+   closed slot): the invariant is re-established and the result is the abstract map's -- items() of an open handle is
+   EXACTLY the list of successfully put (key, bytes) pairs, values() exactly their values; through a closed handle the
+   generator raises (or is empty); a pickled copy is one more consistent possibly-stale snapshot. *)
+Theorem C02_views_step : forall H rs w o,
+  Inv H rs w -> ok_vop w o ->
+  exists rs', Inv H rs' (fst (vstep w o)) /\ vstep_spec rs w o (snd (vstep w o)) rs'.
+Proof. exact vstep_refines. Qed.
+Print Assumptions C02_views_step.
+
+Theorem C02_views_history : forall H ops rs w,
+  Inv H rs w -> ok_vrun w ops ->
+  exists rs', Inv H rs' (snd (vrun w ops)) /\ vrun_spec rs w ops (fst (vrun w ops)) rs'.
+Proof. exact vrun_refines. Qed.
+Print Assumptions C02_views_history.
+
+(* Collection level, any buffer size: inside a writing session items() returns one pair per listed key with the bytes that
+   were put (stored or still buffered), never fails, keeps the session state valid and the listing unchanged *)
+Theorem C02_collection_items : forall H rs f b,
+  BInv H rs f b ->
+  exists l rs' f' b', b_items f b = (f', b', BItems l) /\ map fst l = bkeys b /\
+                      (forall k v, In (k, v) l -> assoc (rs ++ queue b) k = Some v) /\
+                      BInv H rs' f' b' /\ rs' ++ queue b' = rs ++ queue b /\ bkeys b' = bkeys b.
+Proof. exact items_exact. Qed.
+Print Assumptions C02_collection_items.
+
+Theorem C02_collection_items_complete : forall H rs f b,
+  BInv H rs f b -> (forall k, In k (map fst (rs ++ queue b)) -> In k (bkeys b)) ->
+  exists l f' b', b_items f b = (f', b', BItems l) /\
+                  forall k v, assoc (rs ++ queue b) k = Some v -> In (k, v) l.
+Proof. exact items_complete. Qed.
+Print Assumptions C02_collection_items_complete.
+
+Theorem C02_collection_values : forall H rs f b,
+  BInv H rs f b ->
+  exists l f' b', b_items f b = (f', b', BItems l) /\ b_values f b = (f', b', BVals (map snd l)).
+Proof. exact values_exact. Qed.
+Print Assumptions C02_collection_values.
+
+Theorem C02_collection_contains : forall (bs : list backend) f i k,
+  snd (bstep (f, bs) (CContains i k)) = BBool true <-> In k (bkeys (nth i bs b0)).
+Proof. exact contains_listed. Qed.
+Print Assumptions C02_collection_contains.
+
+(* Non-vacuity of the extended history theorem: items/values/pickled copies on the example file. *)
+Definition ex_vops : list vop :=
+  [VBase (Open 0 MA); VBase (Put 0 [1] [2; 3]); VItems 0; VBase (Close 0); VDup 0 1; VBase (Open 1 MR); VValues 1;
+   VItems 0; VBase (Close 1)].
+Example C02_views_nonvacuous :
+  fst (vrun (ex_H, repeat h0 2) ex_vops) =
+    [VR ROk; VR ROk; VRItems [([1], [2; 3])]; VR ROk; VR ROk; VR ROk; VRVals [[2; 3]]; VRFail; VR ROk].
+Proof. vm_compute. reflexivity. Qed.
